@@ -5,6 +5,9 @@ use noodles_csi::binning_index::index::reference_sequence::{Bin, Metadata};
 
 use crate::io::reader::num::read_u32_le;
 
+// The count comes from the input: use it as a capacity hint only up to this bound.
+const MAX_PREALLOCATED_LEN: usize = 1 << 16;
+
 pub(super) fn read_bins<R>(reader: &mut R) -> io::Result<(IndexMap<usize, Bin>, Option<Metadata>)>
 where
     R: Read,
@@ -26,7 +29,7 @@ where
         usize::try_from(n).map_err(|e| io::Error::new(io::ErrorKind::InvalidData, e))
     })?;
 
-    let mut bins = IndexMap::with_capacity(n_bin);
+    let mut bins = IndexMap::with_capacity(n_bin.min(MAX_PREALLOCATED_LEN));
     let mut metadata = None;
 
     for _ in 0..n_bin {
